@@ -39,6 +39,84 @@ func concEngine(rng *Rng, n int, out *Out, args map[string]string) {
 	concReplay(rng.Fork(), n, out)
 	concCipherList(rng.Fork(), n, out)
 	concSalts(rng.Fork(), n, out)
+	concNatTable(rng.Fork(), n, out)
+}
+
+// the association table under churn: associations expire (each on its own goroutine) while first datagrams of other
+// clients create new ones, on the real packet handler over loopback sockets.  Under the race detector an unguarded
+// access of the table is reported; without it the run still checks that every client is answered and that the
+// handler ends when its socket closes.
+func concNatTable(r *Rng, n int, out *Out) {
+	entries := []cfgEntry{{ref: 1, id: "k", cipher: "chacha20-ietf-poly1305", secret: "nat-race", keyref: 0}}
+	cl, err := makeCipherList(entries)
+	if err != nil {
+		return
+	}
+	sink, err := net.ListenPacket("udp", "127.0.0.1:0")
+	if err != nil {
+		return
+	}
+	defer sink.Close()
+	go func() {
+		buf := make([]byte, 2048)
+		for {
+			k, a, err := sink.ReadFrom(buf)
+			if err != nil {
+				return
+			}
+			sink.WriteTo(buf[:k], a)
+		}
+	}()
+	ph := service.NewPacketHandler(15*time.Millisecond, cl, nil, nil)
+	ph.SetTargetIPValidator(func(net.IP) error { return nil })
+	pc, err := net.ListenPacket("udp", "127.0.0.1:0")
+	if err != nil {
+		return
+	}
+	done := make(chan struct{})
+	go func() { ph.Handle(pc); close(done) }()
+	key := newSpecKey("chacha20-ietf-poly1305", "nat-race")
+	sa := sink.LocalAddr().(*net.UDPAddr)
+	hdr := socksV4(sa.IP, sa.Port)
+	var sent, answered int64
+	var wg sync.WaitGroup
+	stopAt := time.Now().Add(time.Duration(40*n) * time.Millisecond)
+	for w := 0; w < 6; w++ {
+		wg.Add(1)
+		seed := r.U64()
+		go func() {
+			defer wg.Done()
+			lr := NewRng(seed)
+			for time.Now().Before(stopAt) {
+				c, err := net.Dial("udp", pc.LocalAddr().String())
+				if err != nil {
+					continue
+				}
+				c.Write(key.packUDP(lr.Bytes(key.c.saltSize), append(append([]byte{}, hdr...), []byte("churn")...)))
+				atomic.AddInt64(&sent, 1)
+				c.SetReadDeadline(time.Now().Add(300 * time.Millisecond))
+				buf := make([]byte, 2048)
+				if _, err := c.Read(buf); err == nil {
+					atomic.AddInt64(&answered, 1)
+				}
+				// let some associations run into their timeout while others are being created
+				time.Sleep(time.Duration(lr.Intn(25)) * time.Millisecond)
+				c.Close()
+			}
+		}()
+	}
+	wg.Wait()
+	pc.Close()
+	select {
+	case <-done:
+	case <-time.After(3 * time.Second):
+		out.Oracle("C18", "the packet handler did not return within 3 s after its socket was closed (association churn)")
+	}
+	if s, a := atomic.LoadInt64(&sent), atomic.LoadInt64(&answered); s > 0 && a*10 < s*9 {
+		out.Oracle("C19", "association table under churn: only %d of %d first datagrams were answered", a, s)
+	}
+	out.Op("conc nat churn", "ok")
+	out.Stat("conc.nat.datagrams", int(sent))
 }
 
 // one key's salt generator used by many connections at once (every response writer of a key shares
